@@ -2,6 +2,7 @@ package termunicode
 
 import (
 	"io"
+	"math/bits"
 	"rare/pkg/color"
 	"rare/pkg/multiterm/termscaler"
 )
@@ -53,7 +54,13 @@ func barWriteRunes(w io.StringWriter, blockChar rune, val, maxVal, maxLen int64)
 		val = maxVal
 	}
 
-	blocks := val * maxLen / maxVal
+	if val <= 0 || maxLen <= 0 {
+		return
+	}
+
+	// val*maxLen can exceed int64 for huge values; take the 128-bit product (the quotient is at most maxLen)
+	hi, lo := bits.Mul64(uint64(val), uint64(maxLen))
+	blocks, _ := bits.Div64(hi, lo, uint64(maxVal))
 	for blocks > 0 {
 		w.WriteString(string(blockChar))
 		blocks--
